@@ -8,8 +8,6 @@ import (
 	"sort"
 	"sync"
 
-	"github.com/bmatcuk/doublestar/v4"
-
 	"github.com/juev/hledger-lsp/internal/ast"
 	"github.com/juev/hledger-lsp/internal/parser"
 	"github.com/juev/hledger-lsp/internal/verifhook"
@@ -328,13 +326,7 @@ func mergeInclude(result *ResolvedJournal, includePath string, subResult *Resolv
 func (l *Loader) expandGlob(basePath, pattern string) ([]string, error) {
 	dir := filepath.Dir(basePath)
 
-	pattern = ExpandHome(ConvertHledgerGlob(pattern))
-
-	if !filepath.IsAbs(pattern) {
-		pattern = filepath.Join(dir, pattern)
-	}
-
-	allMatches, err := doublestar.FilepathGlob(pattern)
+	pattern, allMatches, err := Glob(dir, pattern)
 	if err != nil {
 		return nil, fmt.Errorf("invalid glob pattern: %w", err)
 	}
